@@ -348,6 +348,16 @@ pub fn run(tier: Tier, seed: u64) -> i32 {
                     }
                 }
             }
+            // the oracle slot of an adaptive-fee pool names an address that holds nothing (for a static pool that is the
+            // normal case; for an adaptive pool the oracle is part of the pool)
+            for oslot in ["oracle", "oracle_one", "oracle_two"] {
+                if let Some(i) = g.ix.slot(oslot) {
+                    if bank.get(&g.ix.metas[i].key).map(|a| !a.data.is_empty()).unwrap_or(false) {
+                        let fresh = bs.w.new_key();
+                        subs.push((oslot.into(), "empty_account_for_the_oracle_of_an_adaptive_pool".into(), g.ix.clone().with_key(oslot, fresh)));
+                    }
+                }
+            }
             // pair substitution: a position of another pool with its own token account (same owner)
             if let (Some(pi), Some(_)) = (g.position, named_pool) {
                 let here = bs.w.positions[pi].pool;
